@@ -26,12 +26,12 @@ def show(dev):
     common = [dev.device_id, dev.device_key, dev.ip_address, dev.mac_address, dev.name.encode().hex()]
     t = dev.device_type.name
     if isinstance(dev, SwitcherWaterHeater):
-        f = ["WH", t, b(dev.device_state)] + common + [str(dev.power_consumption), str(round(dev.electric_current * 10)), dev.remaining_time, dev.auto_shutdown]
+        f = ["WH", t, b(dev.device_state)] + common + [str(dev.power_consumption), world.tenths(dev.electric_current), dev.remaining_time, dev.auto_shutdown]
     elif isinstance(dev, SwitcherPowerPlug):
-        f = ["PP", t, b(dev.device_state)] + common + [str(dev.power_consumption), str(round(dev.electric_current * 10))]
+        f = ["PP", t, b(dev.device_state)] + common + [str(dev.power_consumption), world.tenths(dev.electric_current)]
     elif isinstance(dev, SwitcherShutter): f = ["SH", t] + common + [str(dev.position), dev.direction.name]
     elif isinstance(dev, SwitcherThermostat):
-        f = ["TH", t, b(dev.device_state)] + common + [dev.mode.name, str(round(dev.temperature * 10)), str(dev.target_temperature), dev.fan_level.name,
+        f = ["TH", t, b(dev.device_state)] + common + [dev.mode.name, world.tenths(dev.temperature), str(dev.target_temperature), dev.fan_level.name,
                                                         "1" if dev.swing == ThermostatSwing.ON else "0", dev.remote_id.encode().hex()]
     else: f = ["?" + type(dev).__name__]
     return "".join(x + "|" for x in f)
